@@ -9,7 +9,8 @@ MaxSizeExceeded; reject: each of the property loops ends its fall-through arm in
 properties go through read_value (is_none guard), no transmute / unchecked UTF-8 construction is
 reachable from the decoders; frame-exhausted: every decode_packet arm returns Ok only after an emptiness test of the frame buffer that follows its last read (must-dataflow with callee summaries); frame-confinement: only the two Codec::decode bodies consume from the
 receive buffer, VersionCodec consumes nothing. Termination of the outer loop, re-encode stability and
-independence from fragmentation (C10) are not decided here."""
+independence from fragmentation (C10) are not decided here. reject (continued): a NonZero identifier built from decoded bytes has its zero case mapped to an error (never kept as a silent None).
+"""
 import os
 from facts import *
 from disp import agg_sites
